@@ -154,6 +154,8 @@ def gen_case(rng):
         parts['p0']['main_part'] = True
         files['multi.json'] = {'configs': parts}
         base = {'file': 'multi.json'}
+        if rng.random() < 0.35:      # a part named explicitly (not necessarily the main one)
+            base = {'file': f'multi.json#p{rng.randrange(n_docs)}'}
     else:
         for i in range(1, n_docs):
             files[path[i]] = doc_body(i)
